@@ -111,7 +111,14 @@ func runC16(c *eng.Ctx) {
 		dd := c.One(m, eng.CallTo(cvtT+".deDupTags"), "deDupTags(m)")
 		ok, why := eng.OkDominates(m, val.Instr, dd.Instr)
 		c.Check(ok, "validate(ok)<dedup", dd.Instr, m, "an invalid metric is rejected as a whole before anything is built", why)
-		reads := p.Sites(m, eng.LoadField(pmT+".Tags"))
+		var reads []eng.Site
+		for _, r := range p.Sites(m, eng.LoadField(pmT+".Tags")) {
+			// the reads inside validateMetric / deDupTags themselves are those steps, not uses of the result
+			if g := r.Fn; g == val.Instr.(*ssa.Call).Common().StaticCallee() || g == dd.Instr.(*ssa.Call).Common().StaticCallee() {
+				continue
+			}
+			reads = append(reads, r)
+		}
 		if len(reads) < 3 {
 			c.Undecided("expected >= 3 reads of m.Tags in MarshalProtoMetricV1, found %d", len(reads))
 		}
